@@ -49,6 +49,10 @@ func TestC02Directed(t *testing.T) {
 		{"dir -> symlink to '.', children also exist at top level", Tree{"d/x": f(1, 100), "x": f(2, 100)}, Tree{"d": l("."), "x": f(2, 100)}},
 		{"dir -> file, same names elsewhere", Tree{"d/x": f(1, 100), "x": f(2, 100)}, Tree{"d": f(3, 10), "x": f(2, 100)}},
 		{"dir -> symlink while siblings whose names start the same way are deleted", Tree{"lib/x": f(1, 100), "lib64/x": f(2, 100), "libexec/tool": f(3, 100), "lib.txt": f(4, 10), "libs": d()}, Tree{"lib": l("lib64"), "lib64/x": f(2, 100)}},
+		{"file -> implied directory two levels above new files", Tree{"a": f(1, 70000), "k": f(2, 5)}, Tree{"a/b/c/f": f(3, 100), "a/b/c/g": f(1, 70000), "k": f(2, 5)}},
+		{"symlink -> implied directory two levels above new files", Tree{"a": l("c"), "c/x": f(2, 5)}, Tree{"a/b/f": f(3, 100), "c/x": f(2, 5)}},
+		{"deep old tree disappears, only its files are named", Tree{"a/b/c/d/f": f(1, 100), "k": f(2, 5)}, Tree{"k": f(2, 5)}},
+		{"deep old tree moves wholesale", Tree{"a/b/c/f": f(1, 70000), "a/b/c/g": f(2, 70000)}, Tree{"z/y/x/f": f(1, 70000), "z/y/x/g": f(2, 70000)}},
 		{"swap of two files whose names are close to the length limit", Tree{longName: f(1, 70000), longName + "2": f(2, 70000)}, Tree{longName: f(2, 70000), longName + "2": f(1, 70000)}},
 		{"rename chain next to files named like temporary names", Tree{"a": f(1, 70000), "b": f(2, 70000), "b.butler-rename-1": f(3, 100), ".butler-rename-1": f(4, 100)}, Tree{"b": f(1, 70000), "c": f(2, 70000), "b.butler-rename-1": f(3, 100), ".butler-rename-1": f(4, 100)}},
 		{"parked file next to a new file named like a parking name", Tree{"q": f(4, 1000)}, Tree{"q/inner": f(4, 1000), ".butler-parked-0": f(5, 100)}},
@@ -56,9 +60,13 @@ func TestC02Directed(t *testing.T) {
 	}
 	var fails []string
 	for _, c := range cases {
-		for _, optimized := range []bool{false, true} {
-			name := fmt.Sprintf("%s (optimized=%v, broken rename=%v)", c.name, optimized, os.Getenv("BOWL_DEBUG_BROKEN_RENAME") == "1")
-			ar := directedInPlace(c.old.Clone(), c.new.Clone(), optimized)
+		for _, variant := range []struct {
+			optimized bool
+			zipLike   uint64
+		}{{false, 0}, {true, 0}, {false, 3}, {false, 8}} {
+			optimized := variant.optimized
+			name := fmt.Sprintf("%s (optimized=%v, zip-like containers=%d, broken rename=%v)", c.name, optimized, variant.zipLike, os.Getenv("BOWL_DEBUG_BROKEN_RENAME") == "1")
+			ar := directedInPlace(c.old.Clone(), c.new.Clone(), optimized, variant.zipLike)
 			Ev.Eval(fnv64([]byte(name)), true, func() interface{} { return map[string]interface{}{"directed_case": name} })
 			switch {
 			case ar == nil:
@@ -71,7 +79,7 @@ func TestC02Directed(t *testing.T) {
 		}
 	}
 	if len(fails) > 0 {
-		Violation(ft, "C02/directed", "%d of %d directed in-place applications across kind changes went wrong:\n%s", len(fails), 2*len(cases), joinLines(fails, 60))
+		Violation(ft, "C02/directed", "%d of %d directed in-place applications across kind changes went wrong:\n%s", len(fails), 4*len(cases), joinLines(fails, 60))
 	}
 }
 
@@ -81,14 +89,14 @@ func append2(e *Entry, seed uint64) *Entry {
 
 // directedInPlace diffs old -> new (optionally optimizing the patch) and applies it in place on a
 // copy of old; Invariant carries the difference to the new build, if any.
-func directedInPlace(old, nw Tree, optimized bool) *ApplyResult {
+func directedInPlace(old, nw Tree, optimized bool, zipLikeSeed uint64) *ApplyResult {
 	dir, cleanup := RunDir()
 	defer cleanup()
 	oldDir, newDir, inDir, stage := filepath.Join(dir, "old"), filepath.Join(dir, "new"), filepath.Join(dir, "in"), filepath.Join(dir, "stage")
 	Must(old.Normalize().Materialize(oldDir), "old")
 	Must(nw.Normalize().Materialize(newDir), "new")
 	Must(old.Materialize(inDir), "in")
-	dr := Diff(oldDir, newDir, &pwr.CompressionSettings{Algorithm: pwr.CompressionAlgorithm_NONE}, DiffSeams{})
+	dr := Diff(oldDir, newDir, &pwr.CompressionSettings{Algorithm: pwr.CompressionAlgorithm_NONE}, DiffSeams{ZipLikeContainers: zipLikeSeed})
 	if dr.Err != nil || dr.Panic != "" {
 		return nil
 	}
